@@ -27,7 +27,7 @@ CHECKS["C15"] = {
     "text": "ToInt32/ToUint32 wrap modulo 2^32 for every integer, shift counts mod 32, round-half-up on the exact decimal expansion is nearest with ties up for every (n, d), "
             "the exact expansion is exact, and the notation theorem (exponent form iff point outside (-6,21]) are Lean theorems for all inputs. The model's shortest-digit search "
             "(exact interval arithmetic) is compared with the Rust output on structured families of doubles (all powers of 2 and 10 with neighbours, every exponent x boundary mantissas, "
-            "integers around 2^31..2^64, exact ties) plus random bit patterns; a python oracle (repr/Fraction) independently checks round-trip, shortest-ness, notation, exact rounding and correctly rounded parsing.",
+            "integers around 2^31..2^64, exact ties) plus random bit patterns; a python oracle (repr/Fraction) independently checks round-trip, shortest-ness, notation, exact rounding and correctly rounded parsing. M-RadixLit: literal_correct / value_bracket / scan_inv / rneAt_sticky (a 0x / 0o / 0b literal of ANY length is read as the correctly rounded double: 120 kept bits, dropped-bit count and one sticky bit suffice), compared with the lexer and with Python's exact int -> float on literals up to 1100 bits with exact ties and ties broken by one far digit.",
     "note": "Modelled, not verified: core::fmt digit generation and str::parse::<f64> (trusted parameters, compared differentially). Not yet covered: toString(radix) for non-integers, hex/octal/binary literals beyond 2^63. "
             "shortest-digit minimality is checked per double (model self-check + python oracle), not proved for all doubles.",
     "design_ref": "DESIGN.md §4 C15",
@@ -48,7 +48,7 @@ CHECKS["C10"] = {
             "between save and restore leaves cursor and save stack unchanged: no cumulative register limit), addDedup_sound/index_stable (16-bit constant indices never wrap, stay valid) are Lean theorems over all states/op lists; narrowing_reviewed is the obligation over the inventory of narrowing casts "
             "(`as u8`, `as u16`, `as JumpTarget`, ...) re-extracted from src/compiler/*.rs on every run, with multiplicity: a new cast breaks the build until reviewed. "
             "The model is compared op by op with the real allocator and constant pool (incl. >65535 constants); whole-program size sweeps (16 construct families, n = 0..600 dense at 2^7/2^8, cumulative families to 3000+, "
-            "constant families around 2^16) must give the closed-form value or an explicit limit error, with a canary variable.",
+            "constant families around 2^16) must give the closed-form value or an explicit limit error, with a canary variable. Over M-Compile: codeE_isSome_iff / program_refused_iff (a statement is refused exactly when its register demand exceeds 255), codeE_regs / program_registers_in_file (no instruction names a register outside the chunk's register file); the allocator theorems' precondition (a register is freed once, by its holder) is observed by a cfg(tsrun_verif) hook while the real compiler compiles ~850 whole programs per run.",
     "note": "Read from the source, not proved: that the compiler requests windows only through reserve_registers_for and brackets every statement with save/restore. Known finding: the constant-pool limit is per chunk (cumulative over statements).",
     "design_ref": "DESIGN.md §4 C10",
 }
@@ -57,7 +57,7 @@ CHECKS["C20"] = {
     "text": "pos_formula (line = 1 + #LT, column = 1 + characters since the last LT, for every prefix), layout_line/layout_col_* (inserting comments/blank lines/CRLF/tabs/wide characters moves a position exactly as the layout says), "
             "mapOk_step (source-map offsets stay strictly increasing), lookup_floor and span_of_instr (for every sequence of set_span/clear_span/emit the location looked up for an instruction is the one current when it was emitted) are Lean theorems. "
             "Token positions of the real lexer and every source-map lookup of real chunks are compared with the model; programs with planted runtime faults behind call chains of depth 0..12 and planted stray tokens, under random layouts, "
-            "must report positions inside the planted expression/token and exactly the generated call chain.",
+            "must report positions inside the planted expression/token and exactly the generated call chain. Call chains contain directly recursive functions whose activations stop at two different calls (the frames of one function must still report their own positions).",
     "note": "Not modelled: which span the compiler chooses at each set_span call site (covered only by the planted-fault programs). Known finding: untokenisable characters are reported at the next token.",
     "design_ref": "DESIGN.md §4 C20",
 }
@@ -79,7 +79,7 @@ CHECKS["C08"] = {
             "Promise.all / allSettled / any settle exactly when the inputs decide them - not before, and never later: no lost wake-up) are Lean theorems; the model is compared with tsrun and the reference engine after every settlement of generated orders. "
             "Generated scripts (orders, awaits, all/race/any, getId, cancels) run under host policies (value/error/object/promise/order-promise responses, early and late settlement, spurious steps, junk answers, forced GC); "
             "the ledger events of each run are replayed through the model and its reports must equal the real Suspended lists; exactly-once, payload integrity, progress (no Suspended with nothing outstanding), completion, "
-            "catchable error responses and response values are evaluated on the implementation's trace.",
+            "catchable error responses and response values are evaluated on the implementation's trace. A host that answers the NEXT order's id ahead of time (the quantifier's unknown ids): every order the program issues must still be handed to the host exactly once.",
     "note": "The script and the promise machinery are abstracted to ledger events (reconstructed from script markers and host actions); progress/quiescence/catchability are checked per run, not proved. Known findings: "
             "__cancelOrder__ unchecked; loser-then-rejected reported twice; cancellations buffered at completion are dropped.",
     "design_ref": "DESIGN.md §4 C08",
@@ -99,7 +99,7 @@ CHECKS["C11"] = {
             "(prepare after a run abandoned at an arbitrary step gives exactly the state prepare gives on a clean interpreter), observer_equiv (any later run starts from the same lifecycle state as on a fresh interpreter) "
             "and wf_run (guard stack and call stack stay consistent with the VM frames for every event sequence) are Lean theorems. Histories of victim runs (uncaught error planted at random depth, abandoned at step "
             "0..1500, throwing module bodies) followed by observer programs are run on the real interpreter: verif_state after each run must equal M-Life's prediction, no local of the dead run may be visible, "
-            "and the observer's result must equal its result on a fresh interpreter.",
+            "and the observer's result must equal its result on a fresh interpreter. Victims now include internal source modules (registered by the host) that fail while they are instantiated - in their body or in their own import bindings - imported by a plain script through both entry points.",
     "note": "Suspended runs (orders / pending promises) left behind by the host are not reset by prepare() and are not part of the model; effects the victim makes deliberately on the global object are excluded by the property.",
     "design_ref": "DESIGN.md §4 C11",
 }
@@ -108,7 +108,7 @@ CHECKS["C02"] = {
     "text": "collect_reach_iff (a collection changes no reachability), collect_invisible (contents and edges of every reachable object are untouched), collect_roots, collect_idempotent and gc_transparent_step "
             "(an operation gives the same reachable contents whether or not a collection ran just before it) are Lean theorems over the model tied to src/gc.rs by C13. That interpreter and natives keep what they use rooted is searched "
             "for violations: 25 template programs targeting natives that allocate while holding inputs, allocating callbacks/getters/proxy traps, generators, pending promises with both reactions, async functions, closures, "
-            "collections, iterables, plus generated programs and order/host-promise scripts run with collection disabled, at the default threshold, thresholds 1/2/3/5/7/100 and host collect() after every 1/7/50 steps; every schedule must give the outcome of the collection-free run.",
+            "collections, iterables, plus generated programs and order/host-promise scripts run with collection disabled, at the default threshold, thresholds 1/2/3/5/7/100 and host collect() after every 1/7/50 steps; every schedule must give the outcome of the collection-free run. Since the fourth session: 26 natives that call back per element x 6 ways in which the callback shrinks or overwrites the SOURCE array, under every collection schedule (found Array.from / Map.groupBy / Object.groupBy holding unrooted copies of the elements; repaired).",
     "note": "Root discipline of the ~400 natives is not proved, only exercised; a premature reclamation is visible only if the object is used afterwards in a way that changes value, console text or error class. No stale-handle monitor (hook H1 of the design) was built.",
     "design_ref": "DESIGN.md §4 C02",
 }
@@ -117,7 +117,7 @@ CHECKS["C19"] = {
     "text": "map_result_eq (run_vm_to_completion and process_vm_result map every terminal VM result and ledger state alike), run_eq_steps/single_steps_eq_run (for every deterministic VM, every partition of the run into chunks with pauses - "
             "one instruction at a time included - ends in the same state/result) and terminal_stable are Lean theorems. On every run the two Rust match blocks are re-extracted from src/interpreter/mod.rs and must be textually identical "
             "(so one transcription covers both). Generated scripts, entry modules, import graphs and order-issuing programs go through eval, prepare+step, step with interleaved API reads and collect(), C API tsrun_run and C API tsrun_step; "
-            "transcripts (import requests, order traffic with payloads, result, exports, console) must be equal; generated modules must behave identically as entry program, provided dependency and internal source module.",
+            "transcripts (import requests, order traffic with payloads, result, exports, console) must be equal; generated modules must behave identically as entry program, provided dependency and internal source module. Over M-Compile: completes_under_every_schedule / throws_under_every_schedule (every chunking of step() calls of a compiled program of the modelled core ends in the state the reference semantics prescribes).",
     "note": "The VM is an abstract deterministic step function in the model; the three export-wiring functions and the C API glue are not modelled, only compared by transcripts.",
     "design_ref": "DESIGN.md §4 C19",
 }
@@ -137,7 +137,7 @@ CHECKS["C06"] = {
             "alloc_guarded/huge_refused (every size above the limit is refused before allocation, for every n) are Lean theorems; step_unbounded_with_reentrant_native proves the negative part (a re-entrant native makes one step as long as its callback). "
             "reentrant_allowed is an obligation over Gen/Reentrant.lean which bin/extract regenerates from the Rust sources (every native that calls back into the interpreter) - a new re-entrant native breaks the build until reviewed. "
             "Generated trampolined programs are stepped with the cfg(tsrun_verif) counters (exactly 1 instruction per step, re-entry depth 0, step/depth budgets stop loops); recursion through 42 call paths and 28 size-taking built-ins x 21 sizes up to 2^53 "
-            "run one process each and must end in a value or a catchable error.",
+            "run one process each and must end in a value or a catchable error. Over M-Compile (C01's compiler/VM model): codeE_targets / codeS_targets (every jump and catch target the compiler emits lies inside the construct's own code) and compiled_never_faults (for every statement, every run - terminating or not - keeps the program counter and the try stack inside the code: no step faults). A family of 85 programs in which an accessor / toJSON / iterator / trap WRITES to the object the native is reading.",
     "note": "Known finding: a callback run by a re-entrant native (Array.prototype.map, getters, Proxy traps, ... - the extracted list) executes inside ONE step, so a looping callback is not bounded by step counting. "
             "Not counted: time spent in a garbage collection triggered by a step; Rust stack use per native frame is bounded by a 1 MB budget measured by stack addresses, not proved.",
     "design_ref": "DESIGN.md §4 C06",
@@ -158,7 +158,7 @@ CHECKS["C03"] = {
     "text": "strip_plain / strip_of_plain / strip_idem / variant_strip / variants_agree are Lean theorems over the model's program and type grammar (every decoration position x every type form); kinds_covered ties the grammar to enum TypeAnnotation of the "
             "current source. The model's executable generator draws decorated programs from that grammar; for each, the decorated text and the model's erased text are compiled by the real parser+compiler - the bytecode of every chunk must be "
             "identical (types generate no code and shift no neighbouring parse) - and run - outcomes must be identical; a hand corpus covers '<T>(x)' beside comparison chains, literal type arguments, 'as' in templates, '!' before '.'/'[', "
-            "overloads, modifiers, declare/ambient forms and type-only imports/exports.",
+            "overloads, modifiers, declare/ambient forms and type-only imports/exports. Since the fourth session M-Erase has static initialisation blocks and assignment expressions; blocks are placed directly after members without run-time meaning (index signatures, declare fields).",
     "note": "The erasure is verified in the model; that tsrun's parser+compiler implement it is compared per generated program (bytecode identity is stronger than sampling inputs for that program, but programs are sampled). "
             "Decorators and JSX are outside the model.",
     "design_ref": "DESIGN.md §4 C03",
@@ -179,7 +179,7 @@ CHECKS["C07"] = {
     "text": "restore_save (for every VM state - registers, this, open block scopes, try stack, handled exception, completion pending behind finally, suspended callers, environment - restore(save v) = v), "
             "run_mode_independent / run_schedules_agree / run_host_independent (for every continuation function, every value sequence and every choice of which awaits really suspended, the outcome is that of the run that never suspends), "
             "lookup_perm (reads from independently settled promises do not depend on settlement order), lossy_not_roundtrip (the pre-repair save is refuted by a witness) are Lean theorems; fields_saved is the obligation over Gen/VmFields.lean "
-            "(a VM field that is neither saved nor reviewed as transient breaks the build). Generated async programs with awaits at every syntactic position run with host-suspending order() under six schedules and with an in-program stub; outcomes must be identical.",
+            "(a VM field that is neither saved nor reviewed as transient breaks the build). Generated async programs with awaits at every syntactic position run with host-suspending order() under six schedules and with an in-program stub; outcomes must be identical. fields_faithful: the four record literals of save_state / from_saved_state are re-extracted on every run and every field must take its value from the field of the same name of the same record (frame.x, self.x, saved.x, state.x; reviewed renamings). Every kind of synchronous caller frame is forced once per run, including a three-level constructor chain whose middle constructor suspends before super(); several blocking orders outstanding at once (a native calls order per element) answered in one call or one call each; programs tsrun cannot parse are reported instead of being compared with themselves.",
     "note": "The VM's continuation is an arbitrary function of the listed fields in the model; dependence on interpreter-level state outside them is covered by the differential only. Known finding: await inside an async generator body cannot suspend.",
     "design_ref": "DESIGN.md §4 C07",
 }
